@@ -163,13 +163,18 @@ func ceaFor(kind string, cer *wireMsg) []byte {
 	m.NewAVP(avp.ProductName, 0, 0, datatype.UTF8String("peer"))
 	switch kind {
 	case "noapps":
+	case "privok": // the only application is one that only the client's own dictionary defines
+		m.NewAVP(avp.VendorSpecificApplicationID, avp.Mbit, 0, &diam.GroupedAVP{AVP: []*diam.AVP{
+			diam.NewAVP(avp.VendorID, avp.Mbit, 0, datatype.Unsigned32(10415)),
+			diam.NewAVP(avp.AuthApplicationID, avp.Mbit, 0, datatype.Unsigned32(4243)),
+		}})
 	case "unsupapps":
 		m.NewAVP(avp.AuthApplicationID, avp.Mbit, 0, datatype.Unsigned32(12345))
 	case "relayok": // a relay agent: the only application it announces is the relay id
 		m.NewAVP(avp.AuthApplicationID, avp.Mbit, 0, datatype.Unsigned32(0xffffffff))
-	case "vsaunsup", "vsaok": // the only application information is a vendor-specific group, Vendor-Id first
+	case "vsaunsup", "vsaok", "defonly": // the only application information is a vendor-specific group, Vendor-Id first
 		app := uint32(16777999) // no dictionary defines it
-		if kind == "vsaok" {
+		if kind == "vsaok" || kind == "defonly" { // defonly: S6a, which dict.Default defines and the client's own dictionary does not
 			app = 16777251
 		}
 		m.NewAVP(avp.VendorSpecificApplicationID, avp.Mbit, 0, &diam.GroupedAVP{AVP: []*diam.AVP{
@@ -239,6 +244,16 @@ func runHandshake(id int, sc *hsScript, configured bool) hsLine {
 			diam.NewAVP(avp.AuthApplicationID, avp.Mbit, 0, datatype.Unsigned32(16777251))}})},
 	}
 	switch sc.Cfg {
+	case "owndict":
+		// the client works with its own dictionary (base + credit control + a private application 4243), not with
+		// dict.Default; it advertises credit control and, in a vendor-specific group, the private application
+		cli.Dict = ownDict
+		cli.AcctApplicationID, cli.VendorSpecificApplicationID = nil, nil
+		l.Want.Acct = [][]int{}
+		l.Want.VSA = [][]int{append(append(abs.B4(10415), 1), abs.B4(4243)...)}
+		cli.VendorSpecificApplicationID = []*diam.AVP{diam.NewAVP(avp.VendorSpecificApplicationID, avp.Mbit, 0, &diam.GroupedAVP{AVP: []*diam.AVP{
+			diam.NewAVP(avp.VendorID, avp.Mbit, 0, datatype.Unsigned32(10415)),
+			diam.NewAVP(avp.AuthApplicationID, avp.Mbit, 0, datatype.Unsigned32(4243))}})}
 	case "acct":
 		l.Want.Acct = append(l.Want.Acct, abs.B4(12345))
 		cli.AcctApplicationID = append(cli.AcctApplicationID, diam.NewAVP(avp.AcctApplicationID, avp.Mbit, 0, datatype.Unsigned32(12345)))
@@ -299,7 +314,7 @@ func runHandshake(id int, sc *hsScript, configured bool) hsLine {
 	defer logsByConn.Delete(reflect.ValueOf(mc).Pointer())
 	l.Conform = true
 	peerKind := func(kind string) string {
-		if kind == "ok" || kind == "vsaok" || kind == "relayok" {
+		if kind == "ok" || kind == "vsaok" || kind == "relayok" || kind == "privok" {
 			return "ok"
 		}
 		return "fail"
@@ -319,6 +334,15 @@ func runHandshake(id int, sc *hsScript, configured bool) hsLine {
 	if sc.Stall > 0 {
 		mc.OnWrite = func(k int, b []byte) memnet.WriteOutcome {
 			time.Sleep(time.Duration(sc.Stall) * time.Millisecond) // the transport is slow to accept the bytes
+			return memnet.WriteOutcome{N: -1}
+		}
+	}
+	if sc.Kind == "wfail" {
+		// the transport refuses the at-th transmission (nothing accepted); reads keep working, the peer stays
+		mc.OnWrite = func(k int, b []byte) memnet.WriteOutcome {
+			if k == sc.At {
+				return memnet.WriteOutcome{N: 0, Err: &memnet.NetErr{Msg: "scripted write failure"}}
+			}
 			return memnet.WriteOutcome{N: -1}
 		}
 	}
@@ -363,7 +387,7 @@ func runHandshake(id int, sc *hsScript, configured bool) hsLine {
 	got := false
 	deadline := time.Now().Add(time.Duration((sc.Budget+3)*sc.Interval)*time.Millisecond + 5*time.Second)
 	for !got && time.Now().Before(deadline) {
-		if !acted && sc.Kind != "silence" && !sc.During {
+		if !acted && sc.Kind != "silence" && sc.Kind != "wfail" && !sc.During {
 			if mc.WaitWrites(sc.At, 2*time.Millisecond) {
 				msgs, _ := splitMsgs(mc.Out())
 				if len(msgs) >= sc.At {
@@ -466,8 +490,29 @@ func runHandshake(id int, sc *hsScript, configured bool) hsLine {
 	return l
 }
 
+var ownDict *dict.Parser
+
+const privateXML = `<?xml version="1.0" encoding="UTF-8"?><diameter><application id="4243" type="auth" name="Private"><vendor id="10415" name="TGPP"/></application></diameter>`
+
+func loadOwnDict(repo string) error {
+	xs, err := abs.DefaultXML(repo)
+	if err != nil {
+		return err
+	}
+	ownDict, _ = dict.NewParser()
+	for _, x := range []string{xs["baseXML"], xs["creditcontrolXML"], privateXML} {
+		if err := ownDict.Load(strings.NewReader(x)); err != nil {
+			return err
+		}
+	}
+	return nil
+}
+
 func Handshake(a Args) error {
 	installSMHook()
+	if err := loadOwnDict(a.Repo); err != nil {
+		return err
+	}
 	out, err := NewOut(a.Out)
 	if err != nil {
 		return err
